@@ -82,3 +82,41 @@ func Harness_C15_nodeid_exhausted() {
 	verif_Assert("C15.full.holders_keep_their_slots", first && last)
 	verif_Cover("C15.full.done")
 }
+
+// A node whose claim lapsed (it could not renew for longer than the lock's lifetime) and whose slot
+// was then taken by another node goes away - its context is cancelled, or it shuts down gracefully.
+// The new holder keeps the slot: a third node never gets the same id while the second one lives.
+func Harness_C15_nodeid_lapsed_owner() {
+	verif_ClockSet(int64(1) << 60)
+	ctx := context.Background()
+	st := memory.New(ctx)
+	a, b, c := NewNodeIDAllocator(st), NewNodeIDAllocator(st), NewNodeIDAllocator(st)
+	ctxA, cancelA := context.WithCancel(ctx)
+	defer func() {
+		cancelA()
+		b.Release()
+		c.Release()
+		verif_Quiesce()
+	}()
+	idA, err := a.AllocateNodeID(ctxA)
+	verif_Assert("C15.lapse.a", err == nil && idA != "")
+	// A's claim lapses (the store dropped it after its lifetime; A was cut off and did not renew)
+	verif_Assert("C15.lapse.setup", st.Delete(NodeIDKeyPrefix+idA) == nil)
+	idB, errB := b.AllocateNodeID(ctx)
+	verif_Assert("C15.lapse.b_takes_free_slot", errB == nil && idB == idA)
+	graceful := verif_Bool()
+	if graceful {
+		// known finding: Release deletes the slot key without checking whose claim it holds
+		a.Release()
+	} else {
+		cancelA()
+		verif_Cover("C15.lapse.cancelled")
+	}
+	verif_Quiesce()
+	held, _ := st.Exists(NodeIDKeyPrefix + idB)
+	verif_Known("C15-lapsed-owner-release-frees-successors-slot", graceful)
+	verif_Assert("C15.lapse.successor_keeps_slot", held)
+	idC, errC := c.AllocateNodeID(ctx)
+	verif_Assert("C15.lapse.third_node_distinct", errC != nil || idC != idB)
+	verif_Cover("C15.lapse.done")
+}
